@@ -215,7 +215,9 @@ int _GD_MogrifyFile(DIRFILE* D, gd_entry_t* E, unsigned long encoding,
 
     /* swap endianness, if required */
     _GD_FixEndianness(buffer, nread, E->EN(raw,data_type),
-        D->fragment[E->fragment_index].byte_sex, byte_sex);
+        (enc_in->flags & GD_EF_ECOR) ?
+        D->fragment[E->fragment_index].byte_sex : 0,
+        (enc_out->flags & GD_EF_ECOR) ? byte_sex : 0);
 
     nwrote = _GD_WriteOut(E, enc_out, buffer, E->EN(raw,data_type), nread, 1);
 
